@@ -288,4 +288,15 @@ def r_replay(a, tier):
     return replay_contracts(a, 'C03.R4')
 
 
-RULES = [r_chain, r1_seed_loop, r2_flag_transfer, r3a, r3b, r3c, r_replay]
+def r3d(a, tier):
+    """the analysis runs over EVERY rule of the grammar (a rule entered through start=, an include or a base rule is left-recursive too)"""
+    from . import c16
+    rep = c16.r3_error_condition(a, tier)
+    rep.rule = 'C03.R3d'
+    for f in rep.findings:
+        f.rule = 'C03.R3d'
+    rep.text = '[= C16.R3] ' + rep.text
+    return rep
+
+
+RULES = [r_chain, r1_seed_loop, r2_flag_transfer, r3a, r3b, r3c, r3d, r_replay]
